@@ -40,6 +40,18 @@ Definition refactor_sign (p : pstr) : Z * pstr :=
   if Z.ltb (pq p) 2 then (0%Z, p)
   else (2%Z, {| pz := pz p; px := px p; pq := Z.modulo (pq p) 2 |}).
 
+(** set_pauli(s, i) / get_pauli(i): in-place update of one site (index must be in range:
+    numpy raises IndexError otherwise) *)
+Fixpoint upd (l : list bool) (i : nat) (v : bool) : list bool :=
+  match l, i with
+  | [], _ => []
+  | _ :: l', O => v :: l'
+  | x :: l', Datatypes.S i' => x :: upd l' i' v
+  end.
+Definition set_pauli (p : pstr) (zv xv : bool) (i : nat) : pstr :=
+  {| pz := upd (pz p) i zv; px := upd (px p) i xv; pq := pq p |}.
+Definition get_pauli (p : pstr) (i : nat) : bool * bool := (nth i (pz p) false, nth i (px p) false).
+
 (** printing / parsing *)
 Local Open Scope char_scope.
 Definition letter (z x : bool) : ascii :=
